@@ -1087,19 +1087,19 @@ write_object_info (const gchar  *namespace,
 
   func = g_object_info_get_unref_function (info);
   if (func)
-    xml_printf (file, " glib:unref-function=\"%s\"", func);
+    xml_printf (file, " glib:unref-func=\"%s\"", func);
 
   func = g_object_info_get_ref_function (info);
   if (func)
-    xml_printf (file, " glib:ref-function=\"%s\"", func);
+    xml_printf (file, " glib:ref-func=\"%s\"", func);
 
   func = g_object_info_get_set_value_function (info);
   if (func)
-    xml_printf (file, " glib:set-value-function=\"%s\"", func);
+    xml_printf (file, " glib:set-value-func=\"%s\"", func);
 
   func = g_object_info_get_get_value_function (info);
   if (func)
-    xml_printf (file, " glib:get-value-function=\"%s\"", func);
+    xml_printf (file, " glib:get-value-func=\"%s\"", func);
 
   if (deprecated)
     xml_printf (file, " deprecated=\"1\"");
